@@ -18,7 +18,7 @@ CHECKS = {
         category="model_checking",
         design="DESIGN.md section 4, C15",
         technique="explicit-state model checking of the real SlidingDeque: BFS closure over abstract shapes + exhaustive depth-bounded DFS of all op sequences, VecDeque reference model",
-        text="Every operation sequence over a 14-op alphabet up to depth 7 (quick) / 8 (thorough) is executed on the real SlidingDeque (Vec, SmallVec<[u32;2]> and an instrumented Vec backing, from empty and From<container> starts, with and without debug assertions) and compared step by step with a VecDeque; in addition a breadth-first closure over the abstract state (physical length, consumed prefix) with <= 8 live elements reaches a fix-point, which by data independence covers unbounded histories within that size. The space bound (consumed prefix <= half the backing length) is observed directly through the instrumented backing.",
+        text="Every operation sequence over a 14-op alphabet up to depth 7 (quick) / 8 (thorough) is executed on the real SlidingDeque (Vec, SmallVec<[u32;2]> and an instrumented Vec backing, from empty and From<container> starts, with and without debug assertions) and compared step by step with a VecDeque, both by explorers that copy the deque before every op (exactly-fitting capacity: every push meets a full container) and, to depth 5 / 6, by re-executing each history on one object (amortised capacities); in addition a breadth-first closure over the abstract state (physical length, consumed prefix) with <= 8 live elements reaches a fix-point, which by data independence covers unbounded histories within that size. The space bound (consumed prefix <= half the backing length) is observed directly through the instrumented backing.",
         note="Assumes the deque's control flow does not depend on element values (no Ord/Eq bound); logical lengths > 8 are not enumerated; reference model is std VecDeque.",
     ),
     "C16": dict(
@@ -26,7 +26,7 @@ CHECKS = {
         category="model_checking",
         design="DESIGN.md section 4, C16",
         technique="explicit-state model checking of the real SortedDeque: BFS closure over (physical length, consumed prefix, tombstone flags) + exhaustive depth-bounded DFS, BTreeMap reference model",
-        text="Every sequence of push / push-erased / pop_first / pop_last / clear / remove-by-rank / remove-absent up to depth 7 (quick) / 8 (thorough) is executed on the real SortedDeque for both item conventions and three backings; after every op iteration order, first/last/is_empty and find() of every key ever pushed, its absent neighbour and one key above are compared with a BTreeMap, and out-of-order pushes must panic. A closure over tombstone-flag shapes with <= 7 physical items reaches a fix-point.",
+        text="Every sequence of push / push-erased / pop_first / pop_last / clear / remove-by-rank / remove-absent up to depth 7 (quick) / 8 (thorough) is executed on the real SortedDeque for both item conventions and three backings; after every op iteration order, first/last/is_empty and find() of every key ever pushed, its absent neighbour and one key above are compared with a BTreeMap, and out-of-order pushes must panic. A closure over tombstone-flag shapes with <= 7 physical items reaches a fix-point. Six non-initial start histories (tombstones then clear, two interior tombstones, emptied by pops, ...) are each followed by all op sequences to depth 6 / 7, and all histories to depth 5 / 6 are also re-executed on one object without copies.",
         note="Item types whose Ord changes under erasure relative to other keys (DESIGN observation O3) are outside the harness; > 7 physical items not enumerated.",
     ),
 }
@@ -53,7 +53,7 @@ CHECKS["C14"] = dict(
     category="exploration",
     design="DESIGN.md section 4, C14",
     technique="bounded-exhaustive enumeration of (local time, base time, voucher) triples in dense blocks around every edge and wrap-around boundary on the real VouchedTime, window rule in i128 as oracle",
-    text="For ~50 landmark base times (0, the window constants, calendar limits, i64/u64-nanosecond overflow points, 2^32, 2^63, the top of the u64 range) every millisecond of [base-60000, base+3100] and of [epoch, epoch+3000] is tried as local time; every one of the 62 892 base times at the top of the u64 range is combined with every local time within 3 s of the epoch (the only pairs that can wrap into the window); 24 special local times (calendar limits, epoch-1, overflow points) are combined with every base in their window; genuine, off-by-one, foreign-parameter and bit-flipped vouchers are tried at the edge differences. new/check/check_or_die/get_local_time must agree with the rule and never panic; now() is driven with 13 provider offsets.",
+    text="For ~50 landmark base times (0, the window constants, calendar limits, i64/u64-nanosecond overflow points, 2^32, 2^63, the top of the u64 range) every millisecond of [base-60000, base+3100] and of [epoch, epoch+3000] is tried as local time; every one of the 62 892 base times at the top of the u64 range is combined with every local time within 3 s of the epoch (the only pairs that can wrap into the window); 24 special local times (calendar limits, epoch-1, overflow points) are combined with every base in their window; genuine, off-by-one, foreign-parameter and bit-flipped vouchers are tried at the edge differences. new/check/check_or_die/get_local_time must agree with the rule and never panic; now() is driven with 13 provider offsets x the 5 voucher kinds (it must apply the same rule as new(), voucher check included).",
     note="Local times at millisecond granularity (sub-millisecond parts are truncated toward zero by the code); the full 2^64 x 2^64 space is covered by piecewise linearity, not enumeration.",
 )
 CHECKS["C17"] = dict(
@@ -61,7 +61,7 @@ CHECKS["C17"] = dict(
     category="fault_enumeration",
     design="DESIGN.md section 4, C17",
     technique="exhaustive enumeration of reader fault scripts (short reads, EINTR, EOF, hard errors) up to a length bound x counts x attempt limits x arena states x entry points on the real read_n, 15-line specification as oracle",
-    text="All reader scripts over {deliver all, deliver 1, deliver 2, Interrupted, EOF, Other error, WouldBlock error} up to length 6 (quick) / 7 (thorough), then EOF forever, x count in {0,1,2,3,5} x max_attempts in {1,2,3,5,MAX} x five arena states (no cache, fresh chunk, remaining == count, count-1, 0) are run through ByteArena::read_n, Encoder/Decoder::read_n, encode_read and decode_read. Number and sizes of reader calls, returned bytes or error kind, hand-back of the unread tail, liveness of the returned slice, absence of leaks and the codec output after finish are compared with a specification written from the statement.",
+    text="All reader scripts over {deliver all, deliver 1, deliver 2, Interrupted, EOF, Other error, WouldBlock error} up to length 6 (quick) / 7 (thorough), then EOF forever, x count in {0,1,2,3,5} (and, for counts beyond one 64008-byte HCOBS chunk, {64008, 64009, 64010, 70000, 128016, 128017} x scripts over {all, 40000, 64008, 1, Interrupted, EOF, errors} up to length 3 / 4) x max_attempts in {1,2,3,5,MAX} x five arena states (no cache, fresh chunk, remaining == count, count-1, 0) are run through ByteArena::read_n, Encoder/Decoder::read_n, encode_read and decode_read. Number and sizes of reader calls, returned bytes or error kind, hand-back of the unread tail, liveness of the returned slice, absence of leaks and the codec output after finish are judged against the statement on the trace that actually happened: at most max_attempts calls, each asking for at least 1 and at most the bytes still missing, no call after end of file / a non-interrupt error / the count was reached, no stop before one of those or the attempt budget, result = bytes delivered or the last error.",
     note="Readers that violate Read's contract are out of scope; codec output is compared with the reference encoder in mc_core::refcodec.",
 )
 
@@ -105,7 +105,7 @@ CHECKS["C01"] = dict(
     category="model_checking",
     design="DESIGN.md section 4, C01",
     technique="bounded-exhaustive enumeration of inputs x segmentations x input-method masks on the real Encoder and Decoder (tiny limits via hook H2, production limits via the public API), reference codec as oracle",
-    text="Tiny limits (1,1), (2,3), (3,5): every input over {FE, FD, 00, FF, FC} up to length 5 (quick) / 6 (thorough) and over 4 letters up to 6 / 8, every segmentation into <= 3 pieces with all 27 borrow/copy/anchored masks plus read, and the canonical stream fed to the decoder under every 3-way segmentation x 4 methods. Production limits: pre . x^k . h . p . x^t with k at every distance within 3 / 8 of 0, 64, 256, 4096 and the chunk limit (252 after nothing, 64008 after a full first chunk or a stuff sequence), every subset of cuts at part boundaries and inside p, 8 method masks, decoded back under cuts around every header; alignment family x^a . q . x^b for all q over {FE, FD, FF, 00} up to length 4. State-space closure at the tiny limits: a BFS over the encoder's (chunk limit, bytes in chunk, held-back flag) and the decoder's state reaches a fix-point, and from every reachable state every next piece of length 1..3 and follow-up are fed as separate calls by every method and compared in full, so every reachable (state, next piece) transition at these limits is exercised. " + HCOBS_COMMON,
+    text="Tiny limits (1,1), (2,3), (3,5): every input over {FE, FD, 00, FF, FC} up to length 5 (quick) / 6 (thorough) and over 4 letters up to 6 / 8, every segmentation into <= 3 pieces with all 27 borrow/copy/anchored masks plus read, and the canonical stream fed to the decoder under every 3-way segmentation x 4 methods. Production limits: pre . x^k . h . p . x^t with k at every distance within 3 / 8 of 0, 64, 256, 4096 and the chunk limit (252 after nothing, 64008 after a full first chunk or a stuff sequence), every subset of cuts at part boundaries and inside p, 8 method masks (three of them with a rotating schedule over all 10 drain operations, since the statement covers incrementally drained output), decoded back under cuts around every header; alignment family x^a . q . x^b for all q over {FE, FD, FF, 00} up to length 4. State-space closure at the tiny limits: a BFS over the encoder's (chunk limit, bytes in chunk, held-back flag) and the decoder's state reaches a fix-point, and from every reachable state every next piece of length 1..3 and follow-up are fed as separate calls by every method and compared in full, so every reachable (state, next piece) transition at these limits is exercised. " + HCOBS_COMMON,
     note="Strings longer than the bounds with several interacting boundaries at production limits are covered only through the scaled-down limits; bytes outside the alphabets matter only through comparison with FE / FD.",
 )
 CHECKS["C02"] = dict(
@@ -113,7 +113,7 @@ CHECKS["C02"] = dict(
     category="model_checking",
     design="DESIGN.md section 4, C02",
     technique="bounded-exhaustive enumeration of inputs x segmentations x method masks x drain schedules on the real Encoder; stuff-freedom, split-independence (equality with a single-call reference) and length bound checked on every output; exhaustive find_stuff_sequence",
-    text="Same input families as C01 with, in addition, every 2-way segmentation x all 36 pairs of drain operations (nothing, consume 1 / all slices, advance 1 / all bytes, read 2 bytes) so that the early/late split of the output is enumerated; every output is compared with the single-call canonical encoding (split-, method- and drain-independence), searched for FE FD, and checked against len + 1 + 2*ceil(len/64008). hcobs::find_stuff_sequence is compared with a two-line reference on all strings over 5 letters up to length 9 / 10 and at every alignment 0..24. " + HCOBS_COMMON,
+    text="Same input families as C01 with, in addition, every 2-way segmentation x all 36 pairs of drain operations (nothing, consume 1 / all slices, advance 1 / all bytes, read 2 bytes) and x 16 pairs of over-asking drains (consume one slice more than is stable, advance 1 / 2 bytes more than is stable, Read into a buffer larger than everything consumable) so that the early/late split of the output is enumerated and a consumer asking for too much gets only what is consumable; every output is compared with the single-call canonical encoding (split-, method- and drain-independence), searched for FE FD, and checked against len + 1 + 2*ceil(len/64008). hcobs::find_stuff_sequence is compared with a two-line reference on all strings over 5 letters up to length 9 / 10 and at every alignment 0..24. " + HCOBS_COMMON,
     note="The length bound is checked on the enumerated lengths (every length class around both limits), not on all lengths.",
 )
 CHECKS["C07"] = dict(
@@ -129,7 +129,7 @@ CHECKS["C09"] = dict(
     category="model_checking",
     design="DESIGN.md section 4, C09",
     technique="exhaustive enumeration of drain schedules (operation histories of feed / drain calls) on the real Encoder and Decoder at tiny and production limits, plus long periodic unrollings with a full drain after every call; prefix and lag invariants checked after every call",
-    text="Every input of the tiny-limit families with every 2-way segmentation x all 36 drain-operation pairs on both encoder and decoder, the production boundary family with rotating drain operations, and every call-size schedule of length <= 2 (quick) / 3 (thorough) over {1, 100, 1000, 5000, 70000, 1 MiB+1} x {copy, borrow, encode_read} x 4 payload shapes x 3 drain APIs x {encoder, encoder->decoder} streamed for 8 MiB (quick) / 64-256 MiB (thorough). After every call: what is consumable extends what was drained to a prefix of the final output, each drain returns exactly what it removed, encoder lag <= largest arena chunk seen + 64008 + 2, decoder lag = 0. " + HCOBS_COMMON,
+    text="Every input of the tiny-limit families with every 2-way segmentation x all 36 drain-operation pairs on both encoder and decoder (borrow, copy, anchored and PREFETCHED anchored input: the arena read for a piece is issued before the previous piece is drained, so an AnchoredSlice is held across a feed and a drain), every 3-way segmentation of prefetched pieces x 6 drain pairs, over-asking drains, the production boundary family with rotating drain operations, and every call-size schedule of length <= 2 (quick) / 3 (thorough) over {1, 100, 1000, 5000, 70000, 1 MiB+1} x {copy, borrow, encode_read} x 4 payload shapes x 3 drain APIs x {encoder, encoder->decoder} (plus small-call schedules through encode_read(64 KiB, one attempt) from a reader that fails with EINTR before every short delivery) streamed for 8 MiB (quick) / 64-256 MiB (thorough). After every call: what is consumable extends what was drained to a prefix of the final output, each drain returns exactly what it removed, encoder lag <= largest arena chunk seen + 64008 + 2, decoder lag = 0. " + HCOBS_COMMON,
     note="Unbounded stream length is approached by periodic unrolling; an aperiodic schedule that drifts for longer than the unrolling is not covered.",
 )
 CHECKS["C10"] = dict(
@@ -137,13 +137,13 @@ CHECKS["C10"] = dict(
     category="model_checking",
     design="DESIGN.md section 4, C10",
     technique="exhaustive enumeration of operation histories ending in every drop order (leak clause) and of streaming schedules with per-call footprint bounds and a chunk-count plateau test (bounded-footprint clause)",
-    text="Leak clause: every history of the C05 alphabet (clones, takes, arena swaps, held AnchoredSlices, explicit drops of either side) to depth 5 / 6, and every run of the HCOBS families, ends by dropping everything (two drop orders) and the process-wide live chunk / byte counters must return to their initial values. Streaming clause: every schedule of the C09 streaming grid; after every call live arena bytes <= 6 (chained 8) x max(1 MiB, largest call), peak live chunk count in the last third of the stream <= first third + 2 and never above 16, no leak after drop.",
+    text="Leak clause: every history of the C05 alphabet (clones, takes, arena swaps, held AnchoredSlices, explicit drops of either side) to depth 5 / 6, and every run of the HCOBS families, ends by dropping everything (two drop orders) and the process-wide live chunk / byte counters must return to their initial values. Streaming clause: every schedule of the C09 streaming grid, including the read-fault schedules (a failed read must give its arena allocation back); after every call live arena bytes <= 6 (chained 8) x max(1 MiB, largest call), peak live chunk count in the last third of the stream <= first third + 2 and never above 16, no leak after drop.",
     note="Workers are single-threaded processes so the global counters are exact. 'Unbounded' is periodic unrolling to 16-256 MiB. Live bytes are bounded absolutely; growth is judged on the chunk count because the arena's own chunk size legitimately ramps from 4 KiB to 1 MiB.",
 )
 CHECKS["C05"]["engine"] = "iovec_mc+hcobs_mc"
 CHECKS["C05"]["text"] += " The same liveness check runs on every slice exposed by Encoder / Decoder consumers over the HCOBS input families (anchored input included), and after decode errors followed by an arena flush."
 
-STREAM_FAMILIES = "Streams: (i) ALL byte streams over {FE, FD, 00, 01, 61, FF} up to length 6 (quick) / 8 (thorough); (ii) crash histories: every log of <= 2 (quick) / 3 (thorough) records from 7 payloads (empty, 'a', FE FD, 251 / 252 / 253 bytes, FE FE FE), intact, truncated at every byte with and without a restarted writer, and with single bytes replaced by FE / FD / FF / 00; alignment streams x^a . q . x^b. Block sizes 0, 1, 2, 3, 4, 5, 8, 64 (+ 255, 256 and the 512 KiB default on logs). Reader schedules: full reads, always-1, always-2, alternate 1/3, and every single deviation (a 1-byte read, or a burst of 1 / 3 / 40 Interrupted results) at every reader call (every pair for length <= 4 in the thorough tier)."
+STREAM_FAMILIES = "Streams: (i) ALL byte streams over {FE, FD, 00, 01, 61, FF} up to length 6 (quick) / 8 (thorough); (ii) crash histories: every log of <= 2 (quick) / 3 (thorough) records from 7 payloads (empty, 'a', FE FD, 251 / 252 / 253 bytes, FE FE FE), intact, truncated at every byte with and without a restarted writer, and with single bytes replaced by FE / FD / FF / 00; alignment streams x^a . q . x^b; (iv) block and buffer edges: block sizes 4090..4098 x first records whose encoding is B-5..B+2 bytes (valid and torn) followed by a delimiter and a second record, so the delimiter's FE meets every position around the end of a read and of the reader's first arena chunk; FE FD within 3 bytes of 4096 / 8192 / 16384 / 32768 / 65536 / 131072 and at 64004..64016 of a stuff-free filler (alone and after a short first chunk) under block sizes 65536, 70000 and the 512 KiB default. Block sizes 0, 1, 2, 3, 4, 5, 8, 64 (+ 255, 256 and the 512 KiB default on logs). Reader schedules: full reads, always-1, always-2, alternate 1/3, and every single deviation (a 1-byte read, or a burst of 1 / 3 / 40 Interrupted results) at every reader call (every pair for length <= 4 in the thorough tier)."
 CHECKS["C06"] = dict(
     engine="stream_mc",
     category="fault_enumeration",
@@ -166,29 +166,29 @@ CHECKS["C10"]["engine"] = "iovec_mc+hcobs_mc+stream_mc"
 CHECKS["C10"]["text"] += " StreamReader: 8 MiB (quick) / 48 MiB (thorough) streams of seven kinds (empty, invalid, 1-byte, 300-byte, 5000-byte records, delimiter-free invalid garbage, a delimiter-free endless record the judge declares too big) x block sizes {4096, 65536, default} with the same footprint and chunk-plateau bounds, and a leak check after every StreamReader / StreamChunker run."
 
 CHECKS["C13"] = dict(
-    engine="abt_loom",
+    engine="abt_loom+abt_freeze",
     category="model_checking",
     design="DESIGN.md section 4, C13",
-    technique="stateless model checking with loom 0.7.2 (DPOR over thread interleavings + C11 reads-from choices, pre-emption bounded) of the real atomic_base_time.rs compiled against loom-backed stand-ins (hook H3)",
-    text="Six harnesses over the real source (writer lapping both slots against a reader taking two snapshots; update vs try_update vs reader; three updates vs two readers; an older update that must be ignored; recency through a release/acquire flag; two blocking writers vs a reader) are explored exhaustively by loom at pre-emption bound 2 (quick) and 2, 3 and unbounded (thorough): every schedule at atomic-operation granularity and, for every atomic load, every store the C11 release/acquire/relaxed rules allow it to read. In every execution each snapshot must be a whole pair passed to an accepted update or the epoch pair (the crate's own voucher assertion also fires on a torn pair), at least as recent as every update that happens-before it, non-decreasing per thread; older updates are ignored; the final value is the maximum accepted; snapshot takes no lock.",
-    note="loom's model of C11 (no load buffering / out-of-thin-air), mutex poisoning not modelled, <= 3 threads besides main and <= 3 operations per thread; runs exploring fewer than 8 executions are refused as vacuous.",
+    technique="stateless model checking with loom 0.7.2 (DPOR over thread interleavings + C11 reads-from choices, pre-emption bounded) of the real atomic_base_time.rs compiled against loom-backed stand-ins (hook H3); plus exhaustive enumeration of all sequential operation histories (depth-bounded, incl. panicking updates that poison the writer lock) of the real AtomicBaseTime against a reference model",
+    text="Six harnesses over the real source (writer lapping both slots against a reader taking two snapshots; update vs try_update vs reader; three updates vs two readers; an older update that must be ignored; recency through a release/acquire flag; two blocking writers vs a reader) are explored exhaustively by loom at pre-emption bound 2 (quick) and 2, 3 and unbounded (thorough): every schedule at atomic-operation granularity and, for every atomic load, every store the C11 release/acquire/relaxed rules allow it to read. In every execution each snapshot must be a whole pair passed to an accepted update or the epoch pair (the crate's own voucher assertion also fires on a torn pair), at least as recent as every update that happens-before it, non-decreasing per thread; older updates are ignored; the final value is the maximum accepted; snapshot takes no lock. Sequential clause (real std types): all histories up to length 6 (quick) / 7 (thorough) over 14 ops (update / try_update of four base times, update / try_update with a voucher that does not match, which panics inside the writer lock and poisons it, snapshot, sequence) against a three-line reference model: the newest accepted pair is what snapshot returns, older updates are ignored, a poisoned lock costs only the next try_update its turn.",
+    note="loom's model of C11 (no load buffering / out-of-thin-air), mutex poisoning not modelled by loom (covered by the sequential clause on std's mutex), <= 3 threads besides main and <= 3 operations per thread; runs exploring fewer than 8 executions are refused as vacuous.",
 )
 CHECKS["C18"] = dict(
     engine="abt_freeze+abt_loom",
     category="model_checking",
     design="DESIGN.md section 4, C18",
     technique="explicit enumeration of suspension schedules: real OS threads running the real AtomicBaseTime (hook H3 observer as step hook), each writer held after exactly k of its atomic/lock steps, observer optionally paused mid-operation while another writer completes, then run alone; plus the loom harnesses' per-snapshot lock/load counters",
-    text="About 25 000 scenarios: start state (1 or 2 prior updates, writer lock poisoned or not) x observer in {snapshot, snapshot twice, try_update(newer), try_update(older), sequence} paused after each of its own steps (or not started) x {no / one writer completing a whole update meanwhile} x a writer in {update(newer), update(older), try_update(newer)} suspended after each of its steps 0..11 (before lock, holding the lock before/between/after each load and store, finished), or two writers at every pair of steps (including one parked in lock() behind the other); then the observer runs alone. It must return within 64 of its own steps, must never be found inside lock() behind a suspended writer, snapshot must perform no lock operation and only as many loads as completed writes justify, try_update never a blocking lock behind a holder, false whenever a suspended writer holds the lock. The loom harnesses of C13 additionally assert 0 lock operations and a bounded number of loads per snapshot under real interleavings.",
+    text="About 25 000 scenarios: start state (1 or 2 prior updates, writer lock poisoned or not) x observer in {snapshot, snapshot twice, try_update(newer), try_update(+1 000 000 ms), try_update(older), sequence} paused after each of its own steps (or not started) x {no / one writer completing a whole update meanwhile} x a writer in {update(newer), update(older), try_update(newer)} suspended after each of its steps 0..11 (before lock, holding the lock before/between/after each load and store, finished), or two writers at every pair of steps (including one parked in lock() behind the other); then the observer runs alone. It must return within 64 of its own steps, must never be found inside lock() behind a suspended writer, snapshot must perform no lock operation and only as many loads as completed writes justify, try_update never a blocking lock behind a holder, false whenever a suspended writer holds the lock. The loom harnesses of C13 additionally assert 0 lock operations and a bounded number of loads per snapshot under real interleavings.",
     note="Step points are the stand-in operations of hook H3; lock hand-off is decided by the controller (virtual parking), never by an OS race, so every scenario is deterministic. More than two suspended writers are not enumerated.",
 )
 
-CHECKS["C18"]["text"] += " Clause (ii): nfs_voucher::get_base_time_unlocked and observe_file_time are run alone while a thread is suspended after each of the first 13 steps of add_trusted_path's update of the module-wide base time (holding its writer lock): no lock operation, no waiting, at most 4 loads."
+CHECKS["C18"]["text"] += " Clause (ii): nfs_voucher::get_base_time_unlocked and observe_file_time are run alone while a thread is suspended after each of the first 13 steps of add_trusted_path's update of the module-wide base time (holding its writer lock), in a fresh process and after a completed registration, with and without a second add_trusted_path completing while the first is suspended (104 scenarios, each in its own child process because the module state is process-global): no lock operation, no waiting, at most 4 loads."
 CHECKS["C19"] = dict(
     engine="vtime_mc",
     category="model_checking",
     design="DESIGN.md section 4, C19",
-    technique="exhaustive enumeration of call histories (15-op alphabet, depth 3-4) of the real nfs_voucher module, each history in a fresh child process against real files on two real devices, invariant checked after every call",
-    text="All sequences to depth 3 (quick) / 4 (thorough) over {add_trusted_path, observe a stale / a newer trusted file / an untrusted file, maybe_observe (trusted / untrusted), scan_base_time, get_base_time with now = real now / base+100 ms / base+10 s, get_base_time_unlocked, sleep 120 ms (lets the 100 ms throttle expire), touch the stale file, replace the trusted path by a symlink onto the other device, register the other device too}; the trusted role alternates between tmpfs (/dev/shm) and the root file system. After every call the child reads the base time and stats its files: the base never decreases, changes only to the change-time of a file on a trusted device (or of the path being registered by that very call), untrusted observations report nothing, every pair returned passes VouchedTime::check.",
+    technique="exhaustive enumeration of call histories (16-op alphabet, depth 3-4) of the real nfs_voucher module, each history in a fresh child process against real files on two real devices, invariant checked after every call",
+    text="All sequences to depth 3 (quick) / 4 (thorough) over {add_trusted_path, observe a stale / a newer trusted file / an untrusted file, maybe_observe (trusted / untrusted), scan_base_time, get_base_time with now = real now / base+100 ms / base+10 s, get_base_time_unlocked, sleep 120 ms (lets the 100 ms throttle expire), touch the stale file, replace the trusted path by a symlink onto the other device, register the other device too, a registration on the other device that is refused at its validating touch (a world-writable file the caller does not own, called with nobody's effective uid) and must leave nothing behind}; the trusted role alternates between tmpfs (/dev/shm) and the root file system. After every call the child reads the base time and stats its files: the base never decreases, changes only to the change-time of a file on a trusted device (or of the path being registered by that very call), untrusted observations report nothing, every pair returned passes VouchedTime::check.",
     note="Needs two writable devices (exits 2, no verdict, otherwise). Change-times come from the kernel's coarse clock; the harness waits 12 ms after each call so later touches are strictly later. The oracle does not depend on which throttle branch was taken. Concurrency inside nfs_voucher is out of scope.",
 )
 
